@@ -88,7 +88,13 @@ class StmtsMixin:
     def st_Return(self, s, st, d):
         if s.value is None:
             return [(st, "return", NONE)]
-        return [(s1, "return", v) for s1, v in self.ev(s.value, st, d)]
+        fn = self.fn_stack[-1][2] if self.fn_stack and len(self.fn_stack[-1]) > 2 else None
+        self.pending_ann = parse_type(fn.returns) if fn is not None and getattr(fn, "returns", None) is not None else None
+        try:
+            vals = self.ev(s.value, st, d)
+        finally:
+            self.pending_ann = None
+        return [(s1, "return", v) for s1, v in vals]
 
     def st_Raise(self, s, st, d):
         if s.exc is None:
